@@ -2090,7 +2090,6 @@ def r10_in_place_write_only_on_unshared(ctx, rid):
     rd = ctx.rd(f)
     cfg = ctx.cfg(f)
     eff = ctx.effects
-    COPY = {"deepcopy", "copy", "update_template"}
 
     def kinds(name: ast.Name, depth=3):
         """[(kind, def stmt, value)]: kind in copy / lookup / reuse / other"""
